@@ -31,6 +31,16 @@ def programs(tier):
     ops = ["+", "-", "*", "/", "//", "%", "==", "<", "and", "or"]
     for fam, lit, var in gen_core.f1_depth2(["1", "2.0", "-3", '"a"', "0"], ops):
         yield "core.F1f2", "", lit
+    for fam, src, _ in gen_core.f11_definite_assignment():
+        yield "core." + fam, "", src
+    if not q:
+        # thorough: the remaining shared-core families as well
+        for gen in (gen_core.f7_comprehensions(), gen_core.f7b_traced(), gen_core.f10_sizes(), gen_core.f4_histories(3),
+                    gen_core.f2_slices(3, range(-3, 4)), gen_core.f3_methods(), gen_core.f5_control(5)):
+            for fam, lit, var in gen:
+                yield "core." + fam, "", lit
+                if var is not None:
+                    yield "core." + fam, "", var
 
 
 def variants(defs, body):
